@@ -72,6 +72,7 @@ package ice
 //@   ghostvar locked bool = false
 //@   ghostvar checked bool = false
 //@   site call Lock#1 ghost locked := true
+//@   site call Unlock#0 ghost locked := false
 //@   site call select#1 assert started-test-is-made-under-the-start-lock: locked
 //@   site call select#1 ghost checked := true
-//@   site call Run#1 assert start-task-is-submitted-only-after-the-test-under-the-lock: locked && checked
+//@   site call Run#1 assert start-task-is-submitted-after-the-test-and-still-under-the-start-lock: locked && checked
